@@ -823,7 +823,7 @@ fn mkcounter() -> Item {
 
 // ================================================================== FA: aggregates
 
-const FA_RADIX: u64 = 28;
+const FA_RADIX: u64 = 31;
 pub fn fa_count(k: u32) -> u64 {
     seq_count(FA_RADIX, k)
 }
@@ -988,6 +988,29 @@ fn fa_stmt(c: &mut ACtx, o: u64) -> Option<()> {
             let v = c.fresh("t");
             let s = c.sites.next();
             c.push(v, ATy::T2, call("pick", vec![var(&r)], s), "call pick(record with tuple field)".into());
+        }
+        28 | 29 => {
+            // record destructuring: in declaration order, and reversed
+            let r = c.last(ATy::Rec)?;
+            let (p, q) = (c.fresh("p"), c.fresh("p"));
+            let mut fs = vec![("a".to_string(), Pat::Var(p.clone())), ("b".to_string(), Pat::Var(q.clone()))];
+            if o == 29 {
+                fs.reverse();
+            }
+            c.ops.push(if o == 28 { "let {a = p, b = q} = record" } else { "let {b = q, a = p} = record" }.into());
+            c.stmts.push(S::Let(Pat::Record(fs), var(&r)));
+            c.vars.push((p, ATy::F));
+            c.vars.push((q, ATy::F));
+        }
+        30 => {
+            // record pattern with a nested tuple pattern, later field first
+            let r = c.last(ATy::RecT)?;
+            let (p, q, w) = (c.fresh("p"), c.fresh("p"), c.fresh("p"));
+            c.ops.push("let {b = w, a = (p, q)} = record with tuple field".into());
+            c.stmts.push(S::Let(Pat::Record(vec![("b".to_string(), Pat::Var(w.clone())), ("a".to_string(), Pat::Tuple(vec![Pat::Var(p.clone()), Pat::Var(q.clone())]))]), var(&r)));
+            c.vars.push((p, ATy::F));
+            c.vars.push((q, ATy::F));
+            c.vars.push((w, ATy::F));
         }
         21..=27 => {
             // default arguments and parameter packs (a trailing field named ".." prints the open form `{q = a, ..}`)
@@ -1579,6 +1602,17 @@ pub fn features(p: &Prog) -> Vec<String> {
                 });
                 if any_assign {
                     add("has_assignment");
+                }
+                let mut rec_pat = false;
+                walk(&f.body, &mut |x| {
+                    if let E::Block(ss, _) = x {
+                        if ss.iter().any(|q| matches!(q, S::Let(Pat::Record(_), _))) {
+                            rec_pat = true;
+                        }
+                    }
+                });
+                if rec_pat {
+                    add("has_record_pattern");
                 }
                 walk(&f.body, &mut |x| match x {
                     E::Call(n, args, _) => {
